@@ -6,6 +6,7 @@ package main
 
 import (
 	"fmt"
+	"github.com/tinode/chat/server/store/types"
 	"sort"
 	"strings"
 	"sync/atomic"
@@ -172,7 +173,35 @@ func runC14(t *testing.T, sched simrt.Schedule, prog c14Prog) ([]Violation, RunS
 		w.runPhase(fin)
 		w.settle()
 		overlap = w.rt.Probes["fault.disconnect"] + w.rt.Probes["fault.slow_consumer"] + w.rt.Probes["c14.evicted"]
-		return append(out, c14Oracle(w, home)...)
+		// topics whose owner / participant deleted the account during the run
+		killed := map[string]bool{}
+		for _, c := range w.Clients {
+			for _, s := range c.Sents {
+				if s.Msg != nil && s.Msg.Del != nil && s.Msg.Del.What == "user" && s.Code >= 200 && s.Code < 300 {
+					for g, gs := range sc.Groups {
+						if gs.Owner == c.User.Idx && g < len(w.Groups) {
+							killed[w.Groups[g]] = true
+						}
+					}
+					for _, p := range sc.P2P {
+						if p[0] == c.User.Idx || p[1] == c.User.Idx {
+							killed[w.Users[p[0]].Uid.P2PName(w.Users[p[1]].Uid)] = true
+						}
+					}
+				}
+			}
+		}
+		for _, v := range c14Oracle(w, home) {
+			if strings.HasPrefix(v.Key, "unanswered sub") || strings.HasPrefix(v.Key, "unanswered leave") || strings.HasPrefix(v.Key, "hang ") {
+				for name := range killed {
+					if strings.Contains(v.Text, name) || strings.Contains(v.Text, types.GrpToChn(name)) {
+						v.Key = "request-forwarded-to-topic-killed-by-account-deletion"
+					}
+				}
+			}
+			out = append(out, v)
+		}
+		return out
 	})
 	st.Trigger = overlap >= 2
 	st.ProgHash = hashOf(prog)
